@@ -6,9 +6,11 @@ import (
 	"net"
 	"net/http"
 	"os"
+	"os/exec"
 	"path/filepath"
 	"strings"
 	"sync"
+	"syscall"
 	"time"
 
 	"github.com/openebs/jiva/replica"
@@ -63,6 +65,7 @@ type Node struct {
 	curConn   net.Conn
 	stopped   bool
 	connGen   int
+	agent     *exec.Cmd // sync-agent child (system tier)
 	Closes    int       // times the accept loop closed the replica after a connection ended
 	LastSlow  time.Time // last stall / drop / node-side disconnect
 	handleEnd chan struct{}
@@ -221,6 +224,41 @@ func (n *Node) DropConn() {
 	n.WaitDisconnected(10 * time.Second)
 }
 
+// StartAgent starts the repository's own sync agent for this node
+// (jiva sync-agent, cwd = the replica directory) on ip:9504.
+func (n *Node) StartAgent(jivaBin string, portLo, portHi int) error {
+	if n.agent != nil {
+		return nil
+	}
+	cmd := exec.Command(jivaBin, "sync-agent", "--listen", n.IP+":9504", "--listen-port-range", fmt.Sprintf("%d-%d", portLo, portHi))
+	cmd.Dir = n.Dir
+	cmd.SysProcAttr = &syscall.SysProcAttr{Pdeathsig: syscall.SIGKILL, Setpgid: true}
+	cmd.Stdout = nil
+	cmd.Stderr = nil
+	if err := cmd.Start(); err != nil {
+		return err
+	}
+	n.agent = cmd
+	go cmd.Wait()
+	// wait until it listens
+	for i := 0; i < 200; i++ {
+		c, err := net.DialTimeout("tcp", n.IP+":9504", 100*time.Millisecond)
+		if err == nil {
+			c.Close()
+			return nil
+		}
+		time.Sleep(10 * time.Millisecond)
+	}
+	return fmt.Errorf("sync agent of %s does not listen", n.Name)
+}
+
+func (n *Node) StopAgent() {
+	if n.agent != nil && n.agent.Process != nil {
+		syscall.Kill(-n.agent.Process.Pid, syscall.SIGKILL)
+	}
+	n.agent = nil
+}
+
 // Stop shuts the listeners down and abandons the replica without closing it
 // (kill -9 at a quiescent point). The directory stays.
 func (n *Node) Stop() {
@@ -243,6 +281,7 @@ func (n *Node) Stop() {
 
 // Shutdown stops the node and closes the replica cleanly.
 func (n *Node) Shutdown() {
+	n.StopAgent()
 	n.Stop()
 	n.mu.Lock()
 	end := n.handleEnd
